@@ -51,7 +51,8 @@ def call_decompose(case, y=None, cols=None, w="same", **over):
             if len(y) % 2 == 1 and isinstance(X[0], list):
                 X = tuple(tuple(r) for r in X)
         else:
-            X = np.array(cols[0], dtype=float) if len(cols) == 1 and not over.get("force_2d") else np.array(cols, dtype=float).T
+            xdt = (over.get("narrow", case.get("narrow")) if case.get("narrow_x") else None) or float
+            X = np.array(cols[0]).astype(xdt) if len(cols) == 1 and not over.get("force_2d") else np.array(cols).astype(xdt).T
         ydt = over.get("narrow", case.get("narrow")) or float  # whole numbers held in a narrow integer dtype (counts)
         df = decompose(np.array(y).astype(ydt), X, None if w is None else np.array(w).astype(ydt), scoring_function=sf, **kw)
     except Exception as e:
